@@ -47,6 +47,15 @@ def obligations():
         for g in (0, 5, 10, 15):
             o.append(Obl(f"C10.voxel.{c}.cut{int(cf * 100)}.g{g}", "py", V, "voxel_pair", venc, f"same, cutoff {cf} x half width, grid point {g}", "same", 3000, params={"cell": c, "cut_frac": cf, "g0": g},
                          tiers=("quick", "thorough") if (cf == 0.95 and g in (0, 10)) else ("thorough",)))
+    for g in range(16):
+        o.append(Obl(f"C10.voxel.skewed.g{g}", "py", V, "voxel_pair", venc, f"strongly skewed cell (2.42, 3.05, 2.13 nm; 121.1, 124.5, 88.6 degrees), cutoff 0.9 x half width, grid point {g}", "same", 1500, params={"cell": "skewed", "cut_frac": 0.9, "g0": g},
+                     tiers=("quick", "thorough") if g in (0, 5, 10, 15) else ("thorough",)))
+    for c, cf in (("triclinic", 0.8), ("skewed", 0.9)):
+        for g in range(64):
+            o.append(Obl(f"C10.voxel.{c}.fine.g{g}", "py", V, "voxel_pair", venc, f"cell {c}, cutoff {cf} x half width, FINE grid: 8 x 8 fractional (y, z) positions per atom (-0.3 .. 1.2); atom 0 at grid point {g} of 64, atom 1 over all 64", "same", 3000,
+                         params={"cell": c, "cut_frac": cf, "g0": g, "grid": "fine"}, tiers=("quick", "thorough") if g % 21 == 0 else ("thorough",)))
+    o.append(Obl("C10.voxel.skewed.few_z_rows", "py", V, "voxel_pair", venc, "the same skewed cell (three voxel rows along z, c leaning by a third of b), atoms at (y, z) = (1.8356, 0.0912) and (0.8130, 0.8804) nm, x of both symbolic",
+                 "same (this pair of rows is where a neighbour across the upper z face is lost: see the known finding)", 600, params={"cell": "skewed", "cut_frac": 0.9, "g0": 0, "points": "1.8356,0.0912,0.8130,0.8804"}))
     for c in ("cubic3", "triclinic"):
         for g in (0, 5, 10, 15):
             o.append(Obl(f"C10.voxel.nocell.{c}.g{g}", "py", V, "voxel_pair", venc, f"no cell (coordinates laid out as for cell {c}), cutoff as there, grid point {g}", "lists == [[1], [0]] exactly when the plain distance is below the cutoff", 600,
